@@ -564,6 +564,9 @@ def eval_c18(batches, tier, seed, known, info):
         deep = [m for m in msgs if m not in roots and any(m in reach(b['case'], r, excl_paths) for r in roots)]
         if deep:
             targets.append(rnd.choice(deep))
+        # a message without fields is outside the quantifier: excluding its only field would leave it empty again,
+        # which the property's fragment rules out (DESIGN §3: exclusions never leave a message without a field)
+        targets = [t for t in targets if (find_msg(b['case'], t) or {}).get('fields')]
         for tgt in targets:
             c = copy.deepcopy(b['case'])
             find_msg(c, tgt)['fields'].append(bad_field('Zzbadmapfield'))
@@ -802,6 +805,17 @@ def under_embed(case, o):
 # ----------------------------------------------------------------------------------------------------------
 # C13
 
+def canon_hooks(r):
+    """hook calls made inside the loop over a Go map come in that map's iteration order: compare them as a multiset"""
+    if isinstance(r, dict):
+        r = dict(r)
+        if isinstance(r.get('hooks'), list):
+            r['hooks'] = sorted(r['hooks'], key=lambda h: json.dumps(h, sort_keys=True))
+        if isinstance(r.get('steps'), list):
+            r['steps'] = [canon_hooks(x) for x in r['steps']]
+    return r
+
+
 def eval_c13(batches, tier, seed, known, info):
     out = {'evaluations': 0, 'violations': [], 'tie_breaks': [], 'distinct': [], 'samples': [], 'coverage': {}, 'known': {}}
     pairs = 0
@@ -858,7 +872,7 @@ def eval_c13(batches, tier, seed, known, info):
         pairs += len(sops)
         for op, a, t in zip(b['ops'], b['impl'], timpl):
             # conversion diagnostics print the qualified value type of elements: identical in both layouts by construction
-            if json.dumps(a, sort_keys=True) != json.dumps(t, sort_keys=True):
+            if json.dumps(canon_hooks(a), sort_keys=True) != json.dumps(canon_hooks(t), sort_keys=True):
                 out['violations'].append({'kind': 'separate-package variant behaves differently', 'batch': b['dir'], 'id': op.get('id'), 'tag': op.get('tag'),
                                           'diff': first_diff(a, t)})
                 break
